@@ -132,6 +132,7 @@ class Model:
         for a in self.ancestors(obj["cls"]):
             if self.classes[a]["dtor"]:
                 out.append("~" + a)
+                out.append("~" + a + ".end")     # a destructor body has more than one statement
 
     # ---- overloads: documented cost order (exact 0, int->long 1, subclass distance, null 3)
     def cost(self, ptype, atype):
@@ -338,6 +339,7 @@ class Gen:
             if c["dtor"]:
                 L.append("    public destructor() -> void {")
                 L.append('        echo("~%s");' % name)
+                L.append('        echo("~%s.end");' % name)
                 L.append("    }")
             L.append("}")
             decls.append("\n".join(L))
@@ -384,6 +386,117 @@ class Gen:
            "        return this;\n    }\n    public function count() -> int {\n        return made;\n    }\n"
            "    public function get() -> T {\n        return this.v;\n    }\n}")
 
+    def generic_web(self):
+        """2-4 generic classes that instantiate each other from inside generic code, with colliding
+        type-parameter names and different arguments; every specialisation has its own static counter.
+        Returns (class sources, [(main line, expected echo or None)])."""
+        r = self.r
+        n = r.randint(2, 4)
+        names = ["Gw%d" % i for i in range(n)]
+        # a type parameter may carry the name of a real class (GwTag): inside the generic class the
+        # name means the parameter, everywhere else the class
+        params = [r.choice(["T", "T", "U", "E", "GwTag"]) for _ in range(n)]
+        rooted = [r.random() < 0.4 for _ in range(n)]     # generic class with a non-generic base
+        prim = ["int", "string"]
+
+        def lit(t, k):
+            return str(k) if t == "int" else '"s%d"' % k
+
+        def shown(t, k):
+            return str(k) if t == "int" else "s%d" % k
+        made = {}
+        methods = []      # per class: list of (name, kind, target class index, target arg or None, literal k)
+        src = []
+        for i in range(n):
+            P = params[i]
+            L = ["class %s<%s>%s {" % (names[i], P, " extends GwRoot" if rooted[i] else ""),
+                 "    public static int made = 0;", "    public %s v;" % P,
+                 "    public constructor(%s v) -> %s<%s> {" % (P, names[i], P)] + (
+                     ["        super();"] if rooted[i] else []) + ["        this.v = v;",
+                 "        made = made + 1;", "        return this;", "    }",
+                 "    public constructor() -> %s<%s> {" % (names[i], P)] + (
+                     ["        super();"] if rooted[i] else []) + [
+                 "        made = made + 1;", "        return this;", "    }",
+                 "    public function get() -> %s {" % P, "        return this.v;", "    }",
+                 "    public function count() -> int {", "        return made;", "    }"]
+            ms = []
+            for mi in range(r.randint(1, 3)):
+                j = r.choice([x for x in range(n) if x != i] or [i])
+                if j == i:
+                    continue
+                kind = r.choice(["count", "get", "relay"])
+                k = r.randint(1, 90)
+                if kind == "relay":
+                    # another generic instantiated with THIS class's parameter
+                    L += ["    public function m%d() -> %s {" % (mi, P),
+                          "        %s<%s> t = new %s<%s>(this.v);" % (names[j], P, names[j], P),
+                          "        return t.get();", "    }"]
+                    ms.append(("m%d" % mi, "relay", j, None, k))
+                else:
+                    a = r.choice(prim)
+                    rt = "int" if kind == "count" else a
+                    L += ["    public function m%d() -> %s {" % (mi, rt),
+                          "        %s<%s> t = new %s<%s>(%s);" % (names[j], a, names[j], a, lit(a, k)),
+                          "        return t.%s();" % kind, "    }"]
+                    ms.append(("m%d" % mi, kind, j, a, k))
+            L.append("}")
+            src.append("\n".join(L))
+            methods.append(ms)
+        main = []
+        objs = []
+        src.append("class GwRoot {\n    public int tag = 5;\n    public int tag2 = 7;\n"
+                   "    public constructor() -> GwRoot = default;\n}")
+        src.append("class GwTag {\n    public int n;\n    public constructor(int n) -> GwTag {\n"
+                   "        this.n = n;\n        return this;\n    }\n}")
+        src.append("class GwFactory {\n    public constructor() -> GwFactory = default;\n"
+                   "    public function make(int k) -> GwTag {\n        return new GwTag(k);\n    }\n}")
+        li = r.randrange(n)
+        # a non-generic class whose base is a generic instantiation (whose base may be GwRoot)
+        # (a parameterised super(k) into Base<int> is rejected by the analyser, which keeps no type
+        # arguments for a base class: kept out, the no-argument constructor is used)
+        src.append("class GwLeaf extends %s<int> {\n    public int own = 3;\n    public constructor(int k) -> GwLeaf {\n"
+                   "        super();\n        this.own = k;\n        return this;\n    }\n}" % names[li])
+        r.shuffle(src)
+        if r.random() < 0.8:
+            k = r.randint(1, 90)
+            made[(li, "int")] = made.get((li, "int"), 0) + 1
+            main.append(("GwLeaf lf = new GwLeaf(%d);" % k, None))
+            main.append(("echo(lf.own);", str(k)))
+            if rooted[li]:
+                main.append(("echo(lf.tag2);", "7"))
+            main.append(("echo(lf.count());", str(made[(li, "int")])))
+        if r.random() < 0.8:
+            k = r.randint(1, 90)
+            main.append(("GwFactory fac = new GwFactory();", None))
+            main.append(("GwTag tg = fac.make(%d);" % k, None))
+            main.append(("echo(tg.n);", str(k)))
+        for step in range(r.randint(3, 8)):
+            if not objs or r.random() < 0.45:
+                i = r.randrange(n)
+                a = r.choice(prim)
+                k = r.randint(1, 90)
+                v = "w%d" % len(objs)
+                made[(i, a)] = made.get((i, a), 0) + 1
+                main.append(("%s<%s> %s = new %s<%s>(%s);" % (names[i], a, v, names[i], a, lit(a, k)), None))
+                objs.append((v, i, a, k))
+                continue
+            v, i, a, k = r.choice(objs)
+            what = r.randrange(3)
+            if what == 0:
+                main.append(("echo(%s.get());" % v, shown(a, k)))
+            elif what == 1:
+                main.append(("echo(%s.count());" % v, str(made[(i, a)])))
+            elif methods[i]:
+                mn, kind, j, b, kk = r.choice(methods[i])
+                if kind == "relay":
+                    made[(j, a)] = made.get((j, a), 0) + 1
+                    main.append(("echo(%s.%s());" % (v, mn), shown(a, k)))
+                else:
+                    made[(j, b)] = made.get((j, b), 0) + 1
+                    main.append(("echo(%s.%s());" % (v, mn),
+                                 str(made[(j, b)]) if kind == "count" else shown(b, kk)))
+        return src, main
+
     def show_functions(self):
         """function showK(K p) -> int { return p.vm(); } for classes that can see vm"""
         out = []
@@ -393,6 +506,29 @@ class Gen:
                 fn = "show%s" % name
                 self.shows[name] = fn
                 out.append("function %s(%s p) -> int {\n    echo(\"%s\");\n    return p.vm();\n}" % (fn, name, fn))
+        return out
+
+    def drop_functions(self):
+        """function dropK() -> int { K t = new K(..); echo("dropK"); return 7; }: the local object dies
+        because the function returns (its destructor chain runs while the return is in flight)."""
+        out = []
+        self.drops = {}
+        for name in self.m.order:
+            if self.r.random() < 0.4:
+                sig = self.r.choice(list(self.m.classes[name]["ctors"].keys()))
+                args = [self.r.randint(1, 9)] if sig else []
+                fn = "drop%s" % name
+                val = self.r.randint(10, 99)
+                form = self.r.randrange(3)
+                body = ["    %s t = new %s(%s);" % (name, name, ", ".join(map(str, args))), '    echo("%s");' % fn]
+                if form == 0:
+                    body.append("    return %d;" % val)
+                elif form == 1:
+                    body += ["    if (true) {", "        return %d;" % val, "    }", "    return 0;"]
+                else:
+                    body += ["    for (int i = 0; i < 3; i = i + 1) {", "        return %d;" % val, "    }", "    return 0;"]
+                out.append("function %s() -> int {\n%s\n}" % (fn, "\n".join(body)))
+                self.drops[name] = (fn, sig, args, val)
         return out
 
     # ---- main
@@ -425,6 +561,15 @@ class Gen:
         n = r.randint(6, 16)
         depth = 1
         for _ in range(n):
+            if self.drops and r.random() < 0.12:
+                cname = r.choice(sorted(self.drops))
+                fn, sig, args, val = self.drops[cname]
+                emit(depth, "echo(%s());" % fn)
+                tmp = m.construct(cname, sig, args, out)
+                out.append(fn)
+                m.destroy(tmp, out)
+                out.append(str(val))
+                continue
             k = r.random()
             vs = all_vars()
             live = {v: d for v, d in vs.items() if d["obj"] is not None}
@@ -552,6 +697,10 @@ class Gen:
             emit(1, "echo(b3.get());")
             emit(1, "echo(b2.get());")
             out += ["2", "1", "8", "x"]
+        for line, exp in self.web_main:
+            emit(1, line)
+            if exp is not None:
+                out.append(exp)
         emit(1, 'echo("end");')
         out.append("end")
         self.close_scope(scopes.pop(), out)
@@ -574,8 +723,10 @@ class Gen:
         prelude, decls = self.render_classes()
         u = self.build_overloads()
         shows = self.show_functions()
+        web, self.web_main = self.generic_web() if self.r.random() < 0.7 else ([], [])
+        drops = self.drop_functions()
         main = self.build_main()
-        parts = [prelude] + decls + [u, self.BOX] + shows + [main]
+        parts = [prelude] + decls + [u, self.BOX] + web + shows + drops + [main]
         return parts, self.m.out
 
 
